@@ -278,34 +278,51 @@ def check(run):
     # faces: re-wound under exactly {linear part is not the identity, flips_winding(M)}
     fstores = stores_to(ta.node, "self.faces")
     if len(fstores) != 1:
-        raise AnalysisError(f"expected exactly one store to self.faces in Trimesh.apply_transform, found {len(fstores)}")
-    fst, fval = fstores[0]
-    ftxt = pv.canon(fval, fst)
-    ok = ftxt in ("numpy.fliplr(P_self.faces)", "P_self.faces[:, ::-1]", "numpy.flip(P_self.faces, axis=1)", "numpy.flip(P_self.faces, 1)")
-    run.instance("R4", ta.where, f"re-winding = column reversal of every face ({ftxt})", ok)
-    if not ok:
-        run.violation("R4", ta.where, f"the re-winding store `{ftxt}` is not a column reversal of all faces", key=key_of("C04-R4", "fliplr"))
-    conj = []
-    for (i, pos) in enclosing_tests(ta, fst):
-        tests = i.test.values if isinstance(i.test, ast.BoolOp) and isinstance(i.test.op, ast.And) else [i.test]
-        for t_ in tests:
-            conj.append((pv.canon(t_, i), pos))
-    kinds_ = []
-    for txt, pos in conj:
-        if pos and txt == f"trimesh.transformations.flips_winding({mp})":
-            kinds_.append("flips")
-            continue
-        if pos and txt.startswith("not "):
-            g = identity_guard(txt[4:], mp)
-            if g is not None and g[0] == f"{mp}[:3, :3]" and g[1] is not None and g[1] <= 1e-6:
-                kinds_.append("linear-part-not-identity")
+        # no direct store: is the re-winding delegated to a method that does more than reverse the columns?
+        flip_ifs = [i for i in ast.walk(ta.node) if isinstance(i, ast.If) and "flips_winding" in ast.unparse(i.test)]
+        delegated = [c for i in flip_ifs for b in i.body for c in ast.walk(b) if isinstance(c, ast.Call) and isinstance(c.func, ast.Attribute)
+                     and isinstance(c.func.value, ast.Name) and c.func.value.id == ta.params[0] and ix.member(T, c.func.attr).get("method") is not None]
+        for c in delegated:
+            sm = ef.summary(ix.member(T, c.func.attr)["method"], T)
+            memo = sorted({p[-1] for (r, p, k) in sm.writes if r == sm and False} | {".".join(p) for (r, p, k) in sm.writes if k == "memo" and any("normals" in x for x in p)})
+            run.instance("R4", ta.where, f"re-winding delegated to `{ast.unparse(c)}` which also stores {memo}", False)
+            run.violation("R4", ta.where, f"Trimesh.apply_transform re-winds through `{ast.unparse(c)}`, which also rewrites cached normals ({memo[:2]}): apply_transform has already "
+                                          f"carried those normals through the matrix, so they are negated a second time and point inward for mirror transforms",
+                          key=key_of("C04-R4", "flip-delegated", c.func.attr))
+        if delegated:
+            run.assume("the remaining R4 sub-rules about the face store are skipped: the store is delegated (reported above)")
+            fstores = []
+        else:
+            raise AnalysisError(f"expected exactly one store to self.faces in Trimesh.apply_transform, found {len(fstores)}")
+    direct_store = bool(fstores)
+    if direct_store:
+        fst, fval = fstores[0]
+        ftxt = pv.canon(fval, fst)
+        ok = ftxt in ("numpy.fliplr(P_self.faces)", "P_self.faces[:, ::-1]", "numpy.flip(P_self.faces, axis=1)", "numpy.flip(P_self.faces, 1)")
+        run.instance("R4", ta.where, f"re-winding = column reversal of every face ({ftxt})", ok)
+        if not ok:
+            run.violation("R4", ta.where, f"the re-winding store `{ftxt}` is not a column reversal of all faces", key=key_of("C04-R4", "fliplr"))
+        conj = []
+        for (i, pos) in enclosing_tests(ta, fst):
+            tests = i.test.values if isinstance(i.test, ast.BoolOp) and isinstance(i.test.op, ast.And) else [i.test]
+            for t_ in tests:
+                conj.append((pv.canon(t_, i), pos))
+        kinds_ = []
+        for txt, pos in conj:
+            if pos and txt == f"trimesh.transformations.flips_winding({mp})":
+                kinds_.append("flips")
                 continue
-        kinds_.append(f"OTHER:{'' if pos else 'not '}{txt[:80]}")
-    ok = sorted(kinds_) in (["flips", "linear-part-not-identity"], ["flips"])
-    run.instance("R4", ta.where, f"faces are re-wound under exactly {sorted(kinds_)}", ok)
-    if not ok:
-        run.violation("R4", ta.where, f"faces are re-wound under {sorted(kinds_)}: any condition beyond `flips_winding(matrix)` and `linear part != identity` "
-                                      f"means some matrix with negative determinant is not re-wound (or a positive one is)", key=key_of("C04-R4", "flip-guard"))
+            if pos and txt.startswith("not "):
+                g = identity_guard(txt[4:], mp)
+                if g is not None and g[0] == f"{mp}[:3, :3]" and g[1] is not None and g[1] <= 1e-6:
+                    kinds_.append("linear-part-not-identity")
+                    continue
+            kinds_.append(f"OTHER:{'' if pos else 'not '}{txt[:80]}")
+        ok = sorted(kinds_) in (["flips", "linear-part-not-identity"], ["flips"])
+        run.instance("R4", ta.where, f"faces are re-wound under exactly {sorted(kinds_)}", ok)
+        if not ok:
+            run.violation("R4", ta.where, f"faces are re-wound under {sorted(kinds_)}: any condition beyond `flips_winding(matrix)` and `linear part != identity` "
+                                          f"means some matrix with negative determinant is not re-wound (or a positive one is)", key=key_of("C04-R4", "flip-guard"))
     # centre of mass
     cstores = stores_to(ta.node, "self.center_mass")
     ok = bool(cstores)
